@@ -99,24 +99,6 @@ pub proof fn lemma_find_char(s: Seq<char>, c: char)
         if r >= 0 { assert(s[r + 1] == s.skip(1)[r]); }
     }
 }
-/// join of a non-empty list with one more piece in front
-pub proof fn lemma_join_front(a: Seq<char>, r: Seq<Seq<char>>, sep: Seq<char>)
-    requires r.len() >= 1
-    ensures join_seqs(seq![a] + r, sep) == a + sep + join_seqs(r, sep)
-    decreases r.len()
-{
-    let x = seq![a] + r;
-    if r.len() == 1 {
-        assert(x.drop_last() =~= seq![a]);
-        assert(x.last() == r[0]);
-        assert(join_seqs(x.drop_last(), sep) == a);
-    } else {
-        lemma_join_front(a, r.drop_last(), sep);
-        assert(x.drop_last() =~= seq![a] + r.drop_last());
-        assert(x.last() == r.last());
-        assert(join_seqs(x, sep) =~= a + sep + join_seqs(r, sep));
-    }
-}
 /// what the accessors read from a new entry
 pub proof fn lemma_new_entry(key: Seq<char>, value: Seq<char>)
     ensures
